@@ -581,10 +581,68 @@ var c20 = Check[c20Case]{
 	},
 }
 
-func init() { register(c20.key(), c20.Oracle) }
+// c20Big: a dump larger than the handler's initial 1 MiB buffer and maxmem values that are
+// sufficient but not 1 MiB times a power of two: the page must still account for everything.
+func c20Big(extra int) error {
+	w := newWorkload(1)
+	defer w.shutdown()
+	ch := make(chan int)
+	defer close(ch)
+	ready := make(chan int, extra)
+	for i := 0; i < extra; i++ {
+		go parkRecv(ch, ready)
+	}
+	for i := 0; i < extra; i++ {
+		<-ready
+	}
+	buf := make([]byte, 64<<20)
+	size := runtime.Stack(buf, true)
+	buf = nil
+	if size < 1<<20 {
+		return fmt.Errorf("HARNESS: dump of %d goroutines is only %d bytes", extra, size)
+	}
+	srv := httptest.NewServer(http.HandlerFunc(webstack.SnapshotHandler))
+	defer srv.Close()
+	client := &http.Client{Timeout: 120 * time.Second}
+	for _, maxmem := range []int{size + 300001, size*3/2 + 7, 2*size + 1, 64 << 20} {
+		resp, err := client.Get(fmt.Sprintf("%s/debug?augment=0&maxmem=%d", srv.URL, maxmem))
+		if err != nil {
+			return fmt.Errorf("maxmem=%d: %v", maxmem, err)
+		}
+		body, _ := io.ReadAll(resp.Body)
+		resp.Body.Close()
+		if resp.StatusCode != 200 {
+			return fmt.Errorf("the dump is %d bytes and maxmem=%d is sufficient, yet the handler answered %d: %q", size, maxmem, resp.StatusCode, quoteShort(body))
+		}
+		total := 0
+		for _, m := range reRoutines.FindAllSubmatch(body, -1) {
+			k, _ := strconv.Atoi(string(m[1]))
+			total += k
+		}
+		if total < extra+len(w.stable) {
+			return fmt.Errorf("the dump is %d bytes, maxmem=%d: the page accounts for %d goroutines, at least %d exist", size, maxmem, total, extra+len(w.stable))
+		}
+		statsFor("C20").count(1, 1)
+	}
+	statsFor("C20").class("large_dump_requests", 4)
+	return nil
+}
+
+func init() {
+	register(c20.key(), c20.Oracle)
+	register("C20/big", func(m map[string]int) error { return c20Big(m["extra"]) })
+}
 
 func TestC20(t *testing.T) {
 	c := c20
 	c.Checks = n(8, 400)
 	c.Run(t)
+	if cfg.Shard == 0 {
+		extra := 6000
+		if err := guard(func() error { return c20Big(extra) }); err != nil {
+			statsFor("C20").markFailed()
+			p := saveReplay("C20", "C20/big", map[string]int{"extra": extra}, err)
+			t.Fatalf("property C20 violated (C20/big): %v\nreplay=%s", err, p)
+		}
+	}
 }
